@@ -935,6 +935,44 @@ def loaded_search(ctx, post, r, rounds):
     return bad
 
 
+def wrapped_untouched(ctx, post, r):
+    """'the input is untouched unless in_place' when Standardize is reached through the package's own PyTorch wrapper (a
+    CPU tensor shares its memory with the array the wrapper hands over): the caller's tensor is unchanged, a second call
+    gives the same answer, and the answer is Standardize.apply of the same numbers.  -> list of (what, detail)."""
+    np = np_()
+    try:
+        import torch
+        from pydrobert.speech import torch as pst
+    except Exception:  # noqa: BLE001 - no torch in this environment: nothing to check
+        return []
+    bad = []
+    rs = np.random.RandomState(r.randrange(2 ** 31))
+    with warnings.catch_warnings():
+        warnings.simplefilter("ignore")
+        for glob in (False, True):
+            for dt in (torch.float64, torch.float32):
+                for layout in ("whole", "slice"):
+                    st = post.Standardize()
+                    if glob:
+                        st.accumulate(rs.randn(30, 5) * 2.0 + 4.0)
+                    w = pst.PyTorchPostProcessorWrapper.from_postprocessor(st)
+                    base = torch.from_numpy(rs.randn(12, 5) * 3.0 + 1.0).to(dt)
+                    t = base if layout == "whole" else base[2:9]
+                    before = base.clone()
+                    want = st.apply(t.numpy().copy())
+                    desc = dict(kind="standardize-through-torch-wrapper", statistics="accumulated" if glob else "per-utterance",
+                                dtype=str(dt), tensor=layout)
+                    ctx.count("wrapper:standardize")
+                    ctx.case(desc, nontrivial=True)
+                    a = w(t).numpy()
+                    b = w(t).numpy()
+                    if not torch.equal(base, before):
+                        bad.append(("Standardize reached through PyTorchPostProcessorWrapper modified the caller's tensor (in_place was not asked for)", desc))
+                    elif not np.allclose(a, want, rtol=1e-5, atol=1e-6) or not np.allclose(a, b, rtol=1e-6, atol=1e-7):
+                        bad.append(("Standardize reached through PyTorchPostProcessorWrapper: result differs from apply / from a second call", desc))
+    return bad
+
+
 def raw_file_corners(ctx, post, r, rounds):
     """Statistics read from a plain binary file (the one kind of file whose layout and float width the loader has to
     work out for itself): (a) sound float64 statistics with a coefficient that never varied and has many significant
@@ -1217,6 +1255,7 @@ def run(ctx):
     mm += exhaustive_small(ctx, post)
     mm += loaded_search(ctx, post, r, ctx.scale(300, 3000))
     mm += raw_file_corners(ctx, post, r, ctx.scale(120, 1200))
+    mm += wrapped_untouched(ctx, post, r)
     ctx.log("metamorphic search done")
     for what, detail in mm[:5]:
         ctx.fail("property violated on the implementation (%s)" % what, detail, kind="impl")
